@@ -16,7 +16,7 @@ RULE = ("Every tree of depth <= D whose nodes are plain sync/async managers, @co
         "enter_async_context, push_async_exit(manager), push_async_exit(function), push_async_exit(bound method), "
         "push_async_callback} whose manager operands are again nodes; used in `async with`/`with` of a coroutine, observed at the "
         "body suspension and at every suspension during unwinding (async managers suspend in __aexit__), once leaving the blocks "
-        "normally and once through an exception raised in the body (generator-based managers are then driven by throw/athrow). Shadow tree from the "
+        "normally and once through an exception raised in the body (generator-based managers are then driven by throw/athrow), each in both context-analysis modes (trickery; set_trickery_enabled(False), where the exiting manager may be listed a second time). Shadow tree from the "
         "program's own event log: inner_stack = the manager generator's frames and their contexts unless exiting (then those "
         "frames are in the main series and inner_stack is None); ExitStack children = registered-and-not-yet-popped callbacks in "
         "order, with obj / is_async / registration method in description; recursion into children. evaluations = contexts "
@@ -344,6 +344,18 @@ def gen_frames(gen):
     return out
 
 
+REFERENTS = [False]
+
+
+def ctxs_of(frame):
+    """Frame.contexts; in referents mode the manager whose exit call is in progress may be listed twice (once found on
+    the value stack, once as the is_exiting entry - C20 allows that one additional entry): the duplicate is dropped."""
+    cs = list(frame.contexts)
+    if REFERENTS[0] and len(cs) >= 2 and cs[-1].is_exiting and not cs[-2].is_exiting and cs[-2].obj is cs[-1].obj:
+        del cs[-2]
+    return cs
+
+
 def compare_ctx(ctx, node, problems, counter, path, exiting=False):
     counter[0] += 1
     if ctx.obj is not node.mgr:
@@ -373,7 +385,7 @@ def compare_ctx(ctx, node, problems, counter, path, exiting=False):
                 path, [f.funcname for f in ist.frames], [f.f_code.co_name for f in exp_frames]))
             return
         # the kids live in the innermost generator frame
-        kid_ctxs = [c for f in ist.frames for c in f.contexts]
+        kid_ctxs = [c for f in ist.frames for c in ctxs_of(f)]
         compare_ctx_list(kid_ctxs, node.kids, problems, counter, path + "/" + node.kind)
     elif node.kind in ("ES", "AES"):
         live = [r for r in node.regs if not r.done()]
@@ -477,7 +489,18 @@ class BodyError(Exception):
     pass
 
 
-def run_program(roots, raise_in_body=False):
+def run_program(roots, raise_in_body=False, referents=False):
+    import stackscope
+    REFERENTS[0] = referents
+    stackscope.lowlevel.set_trickery_enabled(False if referents else None)
+    try:
+        return _run_program(roots, raise_in_body)
+    finally:
+        REFERENTS[0] = False
+        stackscope.lowlevel.set_trickery_enabled(None)
+
+
+def _run_program(roots, raise_in_body=False):
     import stackscope
     rt = Rt()
     nodes = [build(s, rt, 2) for s in roots]
@@ -526,16 +549,17 @@ def run_program(roots, raise_in_body=False):
                 break
             f = body_frames[i]
             active = n in entered
+            fctx = ctxs_of(f)
             if not active:
-                if f.contexts:
-                    problems.append("%s: root %d not active but frame has contexts %r" % (tag, i, f.contexts))
+                if fctx:
+                    problems.append("%s: root %d not active but frame has contexts %r" % (tag, i, fctx))
                 continue
             # is it exiting? (its body frame is the innermost body frame and deeper frames exist)
             exiting = (i == len(body_frames) - 1) and tag != "body"
-            if len(f.contexts) != 1:
-                problems.append("%s: root %d: %d contexts" % (tag, i, len(f.contexts)))
+            if len(fctx) != 1:
+                problems.append("%s: root %d: %d contexts" % (tag, i, len(fctx)))
                 continue
-            compare_ctx(f.contexts[0], n, problems, counter, "%s/root%d" % (tag, i), exiting=exiting)
+            compare_ctx(fctx[0], n, problems, counter, "%s/root%d" % (tag, i), exiting=exiting)
             if exiting and n.kind == "AG":
                 # its generator frames must be in the main series
                 gf = gen_frames(n.mgr.gen)
@@ -547,8 +571,8 @@ def run_program(roots, raise_in_body=False):
                     for x in st.frames:
                         if gf and x.pyframe is gf[0]:
                             live = [k for k in n.kids if not done_of(k)() or getattr(k.mgr, "exiting", False)]
-                            if len(x.contexts) != len(live):
-                                problems.append("%s: exiting AG generator frame has %d contexts, expected %d" % (tag, len(x.contexts), len(live)))
+                            if len(ctxs_of(x)) != len(live):
+                                problems.append("%s: exiting AG generator frame has %d contexts, expected %d" % (tag, len(ctxs_of(x)), len(live)))
     # mark ExitStack exit calls
     for cls in (ExitStack, AsyncExitStack):
         pass
@@ -570,17 +594,20 @@ def run(ctx):
         idx += 1
         if not ctx.mine(idx):
             continue
-        for rib in (False, True):
+        for rib, referents in ((False, False), (True, False), (False, True), (True, True)):
             try:
-                problems, n, nobs = run_program(roots, rib)
+                problems, n, nobs = run_program(roots, rib, referents)
             except Exception as ex:
                 import traceback
                 problems, n, nobs = ["harness/program raised %r: %s" % (ex, traceback.format_exc()[-600:])], 0, 0
             ctx.count("evaluations", n)
             ctx.count("distinct_nontrivial", nobs)
             ctx.count("programs")
+            if referents:
+                ctx.count("referents_mode_runs")
             if problems:
-                ctx.violation({"roots": roots, "raise_in_body": rib}, "; ".join(problems)[:1500], problems[0].split(":")[0].split("/")[0])
+                ctx.violation({"roots": roots, "raise_in_body": rib, "referents": referents}, "; ".join(problems)[:1500],
+                              ("referents:" if referents else "") + problems[0].split(":")[0].split("/")[0])
         if idx % 997 == 0:
             ctx.sample({"roots": roots, "observations": nobs})
 
@@ -592,5 +619,5 @@ def totuple(x):
 
 
 def replay(case):
-    problems, n, nobs = run_program(totuple(case["roots"]), case.get("raise_in_body", False))
+    problems, n, nobs = run_program(totuple(case["roots"]), case.get("raise_in_body", False), case.get("referents", False))
     return [{"detail": p} for p in problems]
